@@ -24,6 +24,13 @@ func C02(c *Ctx) int {
 		Job: JobOpts{Perturb: 3, LingerMs: -1, HoldPoints: []string{"flow.start"}}}); err != nil {
 		c.Infraf("%v", err)
 	}
+	// StartAll is slow between two start events (held after each trigger) while the first start
+	// event's flow is already over: no completion before the other start events have fired
+	if err := c.TokenGameRound(fs, gen.StartAtTheEdgeShapes(), RoundOpts{Label: "start-at-the-edge", MaxSteps: 5, Reps: 6,
+		Features: []string{"wait"}, MaxWaits: 1,
+		Job: JobOpts{Perturb: 3, LingerMs: -1, HoldPoints: []string{"process.start.triggered"}}}); err != nil {
+		c.Infraf("%v", err)
+	}
 	// cancel while the instance is parked at unanswered requests: no cease trace may follow
 	c.ParkedCancelRound(fs, ps, 3)
 	// level M: StartAll / monitor / wait-group / completion lock / waiters over every interleaving
